@@ -881,6 +881,11 @@ func (ctx Ctx) selectExpr(e *ast.SelectorExpr) coq.Expr {
 }
 
 func (ctx Ctx) structSelector(info structTypeInfo, e *ast.SelectorExpr) coq.StructFieldAccessExpr {
+	if isCondVar(ctx.typeOf(e.X)) || isLockRef(ctx.typeOf(e.X)) || isWaitGroup(ctx.typeOf(e.X)) {
+		// these are opaque in GooseLang (a condition variable's mutex is
+		// reached through the variable it was created from, not through c.L)
+		ctx.unsupported(e, "field %s of %v", e.Sel.Name, ctx.typeOf(e.X))
+	}
 	ctx.dep.addDep(info.name)
 	return coq.StructFieldAccessExpr{
 		Struct:         info.name,
